@@ -10,6 +10,11 @@ def step (_ : Unit) (ws : List String) : Unit × String :=
   | ["call", p, m, f] => ((), Hook.answer (parsePath p) m (f == "1"))
   | ["!call", p, m] =>  -- oracle line: the property, not the table
     if Hook.entryPoints.contains m then ((), Hook.specAnswer (parsePath p) m) else ((), "bad-op")
+  -- `argc` (number of commands handed to DoMulti/DoMultiCache/DoMultiStream) does not occur in the model:
+  -- the table says the wrapper bodies do not branch on their arguments
+  | ["hook", m, _argc, p, f] => ((), Hook.answer (parsePath p) m (f == "1"))
+  | ["!hook", m, _argc, p] =>
+    if Hook.entryPoints.contains m then ((), Hook.specAnswer (parsePath p) m) else ((), "bad-op")
   | _ => ((), "bad-op")
 
 def main : IO Unit := Hex.lineLoop () step
